@@ -33,16 +33,20 @@ def valid_d(seed, l, which):
 
 
 # each spec: (secret_len_fn(c), build(x, c, S) -> (fn, args), expected error or None)
+def KLEN(c):
+    return (32, 16, 24, 32)[(c["L"] // 3) % 4]
+
+
 def S_belt(fn, need_iv, minlen, mult16, out_extra=0):
     def build(x, c, S):
         L = max(c["L"], minlen)
         if mult16:
             L = max(minlen, L // 16 * 16)
-        args = [x.out(L + out_extra), x.buf(expand(c["seed"], L)), L, S, 32]
+        args = [x.out(L + out_extra), x.buf(expand(c["seed"], L)), L, S, KLEN(c)]
         if need_iv:
             args.append(x.buf(expand(c["seed"] + "iv", 16)))
         return fn, args
-    return (lambda c: 32), build
+    return KLEN, build
 
 
 def spec_table():
@@ -50,16 +54,16 @@ def spec_table():
     for fn, iv, mn, m16 in (("beltECBEncr", 0, 16, 0), ("beltECBDecr", 0, 16, 0), ("beltCBCEncr", 1, 16, 0), ("beltCBCDecr", 1, 16, 0), ("beltCFBEncr", 1, 0, 0), ("beltCFBDecr", 1, 0, 0),
                             ("beltCTR", 1, 0, 0), ("beltBDEEncr", 1, 16, 1), ("beltBDEDecr", 1, 16, 1), ("beltSDEEncr", 1, 32, 1), ("beltSDEDecr", 1, 32, 1)):
         T[fn] = S_belt(fn, iv, mn, m16)
-    T["beltMAC"] = ((lambda c: 32), lambda x, c, S: ("beltMAC", [x.out(8), x.buf(expand(c["seed"], c["L"])), c["L"], S, 32]))
+    T["beltMAC"] = (KLEN, lambda x, c, S: ("beltMAC", [x.out(8), x.buf(expand(c["seed"], c["L"])), c["L"], S, KLEN(c)]))
     T["beltHMAC"] = ((lambda c: 32 + c["L"] % 40), lambda x, c, S: ("beltHMAC", [x.out(32), x.buf(expand(c["seed"], c["L"])), c["L"], S, 32 + c["L"] % 40]))
     T["beltPBKDF2"] = ((lambda c: 8 + c["L"] % 30), lambda x, c, S: ("beltPBKDF2", [x.out(32), S, 8 + c["L"] % 30, 3, x.buf(expand(c["seed"], 8)), 8]))
     T["beltKRP"] = ((lambda c: 32), lambda x, c, S: ("beltKRP", [x.out(32), 32, S, 32, x.buf(expand(c["seed"], 12)), x.buf(expand(c["seed"] + "h", 16))]))
-    T["beltDWPWrap"] = ((lambda c: 32), lambda x, c, S: ("beltDWPWrap", [x.out(c["L"]), x.out(8), x.buf(expand(c["seed"], c["L"])), c["L"], x.buf(expand(c["seed"] + "a", 13)), 13, S, 32, x.buf(expand(c["seed"] + "iv", 16))]))
-    T["beltCHEWrap"] = ((lambda c: 32), lambda x, c, S: ("beltCHEWrap", [x.out(c["L"]), x.out(8), x.buf(expand(c["seed"], c["L"])), c["L"], x.buf(expand(c["seed"] + "a", 13)), 13, S, 32, x.buf(expand(c["seed"] + "iv", 16))]))
+    T["beltDWPWrap"] = (KLEN, lambda x, c, S: ("beltDWPWrap", [x.out(c["L"]), x.out(8), x.buf(expand(c["seed"], c["L"])), c["L"], x.buf(expand(c["seed"] + "a", 13)), 13, S, KLEN(c), x.buf(expand(c["seed"] + "iv", 16))]))
+    T["beltCHEWrap"] = (KLEN, lambda x, c, S: ("beltCHEWrap", [x.out(c["L"]), x.out(8), x.buf(expand(c["seed"], c["L"])), c["L"], x.buf(expand(c["seed"] + "a", 13)), 13, S, KLEN(c), x.buf(expand(c["seed"] + "iv", 16))]))
     # error exit: wrong MAC (both twins fail authentication)
     T["beltDWPUnwrap:badmac"] = ((lambda c: 32), lambda x, c, S: ("beltDWPUnwrap", [x.out(c["L"]), x.buf(expand(c["seed"], c["L"])), c["L"], x.buf(expand(c["seed"] + "a", 13)), 13, x.buf(bytes(8)), S, 32, x.buf(expand(c["seed"] + "iv", 16))]), "ERR_BAD_MAC")
     T["beltCHEUnwrap:badmac"] = ((lambda c: 32), lambda x, c, S: ("beltCHEUnwrap", [x.out(c["L"]), x.buf(expand(c["seed"], c["L"])), c["L"], x.buf(expand(c["seed"] + "a", 13)), 13, x.buf(bytes(8)), S, 32, x.buf(expand(c["seed"] + "iv", 16))]), "ERR_BAD_MAC")
-    T["beltKWPWrap"] = ((lambda c: 32), lambda x, c, S: ("beltKWPWrap", [x.out(max(16, c["L"]) + 16), x.buf(expand(c["seed"], max(16, c["L"]))), max(16, c["L"]), None, S, 32]))
+    T["beltKWPWrap"] = (KLEN, lambda x, c, S: ("beltKWPWrap", [x.out(max(16, c["L"]) + 16), x.buf(expand(c["seed"], max(16, c["L"]))), max(16, c["L"]), None, S, KLEN(c)]))
     T["beltKWPWrap:secretdata"] = ((lambda c: max(16, c["L"])), lambda x, c, S: ("beltKWPWrap", [x.out(max(16, c["L"]) + 16), S, max(16, c["L"]), None, x.buf(expand(c["seed"], 32)), 32]))
     def kwp_unwrap_ok(x, c, S):
         # success exit: the token is made from the secret key material in the parent; the destination is placed at every alignment
@@ -87,6 +91,16 @@ def spec_table():
     T["botpOCRARand"] = ((lambda c: 32), lambda x, c, S: ("botpOCRARand", [x.out(10), x.buf(b"OCRA-1:HOTP-HBELT-8:C-QN08-PHBELT\0"), S, 32, x.buf(b"12345678"), 8, x.buf(expand(c["seed"], 8)), x.buf(expand(c["seed"] + "p", 32)), None, 0]))
     T["belsShare2"] = ((lambda c: 16), lambda x, c, S: ("belsShare2", [x.out(5 * 17), 5, 3, 16, S, GEN, x.tape(expand(c["seed"], 64), mode=1)]))
     T["belsShare2:secretrng"] = ((lambda c: 32), lambda x, c, S: ("belsShare2", [x.out(5 * 17), 5, 3, 16, x.buf(expand(c["seed"], 16)), GEN, tape_from(x, S)]))
+    # error exits behind a keyed generator: belsShare3 keys its generator with the secret before belsShare2 rejects count / threshold
+    def share3_bad(x, c, S):
+        ln = (16, 24, 32)[c["L"] % 3]
+        cnt, thr = [(17, 3), (3, 4), (5, 0), (16, 17)][(c["L"] // 3) % 4]
+        return "belsShare3", [x.out(17 * 33), cnt, thr, ln, S]
+    T["belsShare3:badargs"] = ((lambda c: (16, 24, 32)[c["L"] % 3]), share3_bad, "any_error")
+    T["belsShare3"] = ((lambda c: (16, 24, 32)[c["L"] % 3]), lambda x, c, S: ("belsShare3", [x.out(5 * 33), 5, 3, (16, 24, 32)[c["L"] % 3], S]))
+    # the process-wide generator fed from an additional source whose output is the secret (x/shim_c15.c)
+    T["rngCreate:source_on_live"] = ((lambda c: 32), lambda x, c, S: ("x_c15_rng_twice", [S, x.out(32)]))
+    T["rngCreate:source_first"] = ((lambda c: 32), lambda x, c, S: ("x_c15_rng_first", [S, x.out(32)]))
     T["belsRecover2"] = ((lambda c: 3 * 16), lambda x, c, S: ("belsRecover2", [x.out(16), 3, 16, shares_from(x, S)]))
     # bign: private key as the secret
     for l in (128, 192, 256):
